@@ -637,15 +637,28 @@ func c13Gen(r *Rng, i int) *Sx {
 			}
 			k := r.Range(1, min(recvMax, 5)+1)
 			for ; k > 0 && p.open; k-- {
-				if len(p.q2) > 0 && r.Chance(1, 7) {
+				if len(p.q2) > 0 && r.Chance(1, 4) {
 					// the same QoS 2 PUBLISH once more, DUP set (no new message, no new slot of the Receive Maximum)
 					pid := Pick(r, p.q2)
 					if o := p.q2pk[pid]; o != nil && len(o.List[7].List) == 1 || o != nil && !L(o.List[7].List[1:]...).Has("alias") {
 						cp := &Sx{IsL: true, List: append([]*Sx{}, o.List...)}
 						cp.List[1] = Bool(true)
+						bindAlias := 0
+						if aliasMax >= 1 && len(p.q2) < recvMax && r.Chance(1, 2) {
+							// the retransmission introduces a topic alias for its topic: the binding counts although the
+							// message is no new one, and the alias is used right away
+							bindAlias = Pick(r, []int{1, aliasMax, r.Range(1, min(aliasMax, 12))})
+							cp.List[7] = &Sx{IsL: true, List: append(append([]*Sx{}, o.List[7].List...), K("alias", I(bindAlias)))}
+							p.alias[bindAlias] = o.List[4].Str()
+						}
 						add(L(A("send"), I(p.label), cp))
 						if len(p.q2) >= recvMax {
 							p.open = false // what the broker does today
+						}
+						if bindAlias > 0 && p.open {
+							forceAlias = bindAlias
+							publish(p, o.List[4].Str(), Pick(r, []int{0, 1}), 0, nil, 0, 2, true)
+							forceAlias = 0
 						}
 						continue
 					}
